@@ -30,7 +30,7 @@ LEVEL = "exploration"
 RULE = (
     "Histories of 1..7 commands on a generated tree (3..20 nodes: names on both sides of the exclusion rules, empty / binary files, symlinks to files, "
     "directories, nowhere and into a sentinel directory outside the project, LICENSES/, .reuse/, .hg, subprojects; half of them Git repositories with "
-    "ignore rules; some files 0444; optional valid .reuse/dep5 or REUSE.toml; optional pre-existing empty LICENSES/ and output directories; optional FILE.license / LICENSES/LicenseRef-verif.txt symlinks into the sentinel directory, existing or dangling).  Commands: lint (4 formats, pool on/off), lint-file, spdx [-o], "
+    "ignore rules; some files 0444; optional valid .reuse/dep5 or REUSE.toml; optional pre-existing empty LICENSES/ and output directories; optional FILE.license / LICENSES/LicenseRef-verif.txt / REUSE.toml symlinks into the sentinel directory, existing or dangling).  Commands: lint (4 formats, pool on/off), lint-file, spdx [-o], "
     "supported-licenses, --help, --version, annotate FILES / -r DIRS (dot-license options, styles), --root DIR annotate -r DIR (DIR a sub-directory, e.g. of a Git work tree), convert-dep5, download (LicenseRef- locally, SPDX "
     "ids via a loopback stub, -o).  Invariant per step: snapshot (type, size, mode, mtime_ns, sha1, link target) delta is empty for the read-only "
     "commands and for every exit-2 invocation, {-o file} for spdx, named regular files / covered files below named directories and their .license "
@@ -103,7 +103,7 @@ class Machine(RuleBasedStateMachine):
 
     @initialize(spec=GT.tree_spec(max_nodes=20), glob=st.sampled_from(["none", "none", "dep5", "toml"]), ro=st.lists(st.integers(0, 30), max_size=3),
                 empty_dirs=st.lists(st.sampled_from(["LICENSES", "emptyout"]), max_size=2, unique=True),
-                links=st.lists(st.tuples(st.sampled_from(["sibling-existing", "sibling-dangling", "licence-dangling"]), st.integers(0, 30)), max_size=2))
+                links=st.lists(st.tuples(st.sampled_from(["sibling-existing", "sibling-dangling", "licence-dangling", "toml-dangling"]), st.integers(0, 30)), max_size=2))
     def setup(self, spec, glob, ro, empty_dirs=(), links=()):
         self.base = self.ctx.fresh_dir()
         self.root = self.base / "proj"
@@ -131,7 +131,11 @@ class Machine(RuleBasedStateMachine):
         # symbolic links where the commands write: FILE.license pointing at a file (or at nothing) outside the project,
         # LICENSES/LicenseRef-verif.txt pointing at nothing outside the project
         for what, i in links:
-            if what == "licence-dangling":
+            if what == "toml-dangling":
+                # next to a dep5: REUSE.toml as a symbolic link to nothing, outside the project (convert-dep5 must not write through it)
+                if glob == "dep5" and not os.path.lexists(self.root / "REUSE.toml"):
+                    os.symlink(str(self.sentinel / "written-through-link.toml"), self.root / "REUSE.toml")
+            elif what == "licence-dangling":
                 lp = self.root / "LICENSES" / "LicenseRef-verif.txt"
                 if os.path.isdir(self.root / "LICENSES") and not os.path.lexists(lp):
                     os.symlink(str(self.sentinel / "created-through-link.txt"), lp)
